@@ -247,6 +247,7 @@ def worker_main(argv):
   executed = []
   t0 = time.time()
   idxs = range(w, nruns, nw)
+  gc_every = getattr(mod, 'GC_EVERY', 0)
   for n, i in enumerate(idxs):
     if time.time() - t0 > deadline_s:
       agg['deadline_hit'] = True
@@ -257,6 +258,9 @@ def worker_main(argv):
     plan['run_seed'] = rs
     plan['index'] = i
     plan['property'] = prop
+    if gc_every and n and n % gc_every == 0:
+      # engines that build classes per run (cyclic garbage by construction) collect on a fixed, run-count-based schedule
+      gc.collect()
     try:
       res = mod.execute(plan)
     except Exception as e:  # harness error: report apart from violations
